@@ -6,6 +6,7 @@ import (
 	"github.com/vmihailenco/msgpack/v5"
 	msgpackCodes "github.com/vmihailenco/msgpack/v5/msgpcode"
 	"github.com/zclconf/go-cty/cty"
+	"github.com/zclconf/go-cty/cty/convert"
 )
 
 // Unmarshal interprets the given bytes as a msgpack-encoded cty Value of
@@ -157,6 +158,10 @@ func unmarshalList(dec *msgpack.Decoder, ety cty.Type, path cty.Path) (cty.Value
 		vals = append(vals, val)
 	}
 
+	vals, err = unifyDynamicElements(vals, path)
+	if err != nil {
+		return cty.DynamicVal, err
+	}
 	return cty.ListVal(vals), nil
 }
 
@@ -188,6 +193,10 @@ func unmarshalSet(dec *msgpack.Decoder, ety cty.Type, path cty.Path) (cty.Value,
 		vals = append(vals, val)
 	}
 
+	vals, err = unifyDynamicElements(vals, path)
+	if err != nil {
+		return cty.DynamicVal, err
+	}
 	return cty.SetVal(vals), nil
 }
 
@@ -224,6 +233,21 @@ func unmarshalMap(dec *msgpack.Decoder, ety cty.Type, path cty.Path) (cty.Value,
 		vals[key] = val
 	}
 
+	{
+		keys := make([]string, 0, len(vals))
+		elems := make([]cty.Value, 0, len(vals))
+		for k, v := range vals {
+			keys = append(keys, k)
+			elems = append(elems, v)
+		}
+		elems, err := unifyDynamicElements(elems, path)
+		if err != nil {
+			return cty.DynamicVal, err
+		}
+		for i, k := range keys {
+			vals[k] = elems[i]
+		}
+	}
 	return cty.MapVal(vals), nil
 }
 
@@ -330,4 +354,35 @@ func unmarshalDynamic(dec *msgpack.Decoder, path cty.Path) (cty.Value, error) {
 	}
 
 	return unmarshal(dec, ty, path)
+}
+
+// unifyDynamicElements deals with collection elements that were decoded
+// against an element type containing dynamic placeholders and so may have
+// come out with different types: it converts them to a single type where
+// that's possible and returns an error otherwise.
+func unifyDynamicElements(vals []cty.Value, path cty.Path) ([]cty.Value, error) {
+	same := true
+	tys := make([]cty.Type, len(vals))
+	for i, v := range vals {
+		tys[i] = v.Type()
+		if !tys[i].Equals(tys[0]) {
+			same = false
+		}
+	}
+	if same {
+		return vals, nil
+	}
+	ty, _ := convert.UnifyUnsafe(tys)
+	if ty == cty.NilType {
+		return nil, path.NewErrorf("collection elements must all have the same type")
+	}
+	ret := make([]cty.Value, len(vals))
+	for i, v := range vals {
+		var err error
+		ret[i], err = convert.Convert(v, ty)
+		if err != nil || !ret[i].Type().Equals(ret[0].Type()) {
+			return nil, path.NewErrorf("collection elements must all have the same type")
+		}
+	}
+	return ret, nil
 }
